@@ -142,7 +142,7 @@ func (x *extractor) load() {
 			fail("unexpected package %s", p.PkgPath)
 		}
 		// the overlay harness/extractor packages never exist in /repo itself
-		if strings.HasSuffix(p.PkgPath, "/cmd/verifharness") || strings.HasSuffix(p.PkgPath, "/cmd/xmaprange") {
+		if strings.Contains(p.PkgPath, "/cmd/verifharness") || strings.HasSuffix(p.PkgPath, "/cmd/xmaprange") {
 			continue
 		}
 		x.pkgs = append(x.pkgs, p)
